@@ -46,6 +46,16 @@ func (p *Program) globalInit(g *ssa.Global) (ast.Expr, *types.Info) {
 // constIntTable evaluates a package-level array/slice variable whose
 // initialiser is a composite literal of constant integers.
 func (p *Program) constIntTable(g *ssa.Global) ([]int64, bool) {
+	// the value after package initialisation, when it folds to constants (initeval.go): covers literals as well as
+	// tables filled or patched by init functions
+	if v, ok := p.initEval().globalValue(g); ok {
+		if t, ok := intTable(v); ok {
+			return t, true
+		}
+	}
+	if p.touchedByDeclaredInit(g) {
+		return nil, false
+	}
 	e, info := p.globalInit(g)
 	cl, ok := e.(*ast.CompositeLit)
 	if !ok {
@@ -109,6 +119,34 @@ func (p *Program) constIntTable(g *ssa.Global) ([]int64, bool) {
 // assignedOnlyByInit: no instruction outside the package initialiser stores to
 // g or to an address derived from g, and g's address is not passed to a call
 // (axiom A5).
+// constIntTable2: a package-level table of rows of integers whose value after package initialisation folds to
+// constants (initeval.go).
+func (p *Program) constIntTable2(g *ssa.Global) ([][]int64, bool) {
+	if v, ok := p.initEval().globalValue(g); ok {
+		return intTable2(v)
+	}
+	return nil, false
+}
+
+// touchedByDeclaredInit: a declared init function (not the variable's own initialiser) mentions g.
+func (p *Program) touchedByDeclaredInit(g *ssa.Global) bool {
+	for _, fn := range p.Funcs {
+		if !isInitFunc(fn) || fn.Synthetic != "" {
+			continue
+		}
+		for _, b := range fn.Blocks {
+			for _, in := range b.Instrs {
+				for _, op := range in.Operands(nil) {
+					if *op == ssa.Value(g) {
+						return true
+					}
+				}
+			}
+		}
+	}
+	return false
+}
+
 func (p *Program) assignedOnlyByInit(g *ssa.Global) bool {
 	derived := func(v ssa.Value) bool {
 		for i := 0; i < 8; i++ {
@@ -134,7 +172,7 @@ func (p *Program) assignedOnlyByInit(g *ssa.Global) bool {
 		return false
 	}
 	for _, fn := range p.Funcs {
-		if fn.Synthetic != "" && fn.Name() == "init" {
+		if isInitFunc(fn) {
 			continue
 		}
 		for _, b := range fn.Blocks {
